@@ -8,7 +8,7 @@ THEOREMS = ['Eff.C15_sound', 'Eff.C15_static', 'Eff.C15_frame', 'Eff.C15_summari
 RULE = ("random sequences (length 3..8) of public API calls that SHARE their argument objects (one signal array, one set of option dictionaries incl. nested dicts, "
         "one cycle table per centring): compute_features (both burst methods, both centrings), compute_shape_features, compute_cyclepoints, compute_burst_features, the four "
         "burst-feature functions, find_extrema / find_zerox, compute_features_2d / 3d (shared dict, per-row lists, aliased lists, axis 0 / None / (0,1)), recompute_edges, "
-        "limit_df, epoch_df, drop_samples_df, the plotting functions; after every call a deep snapshot of every shared object is compared with the one taken before (arrays "
+        "limit_df, epoch_df, drop_samples_df, the plotting functions, and calls that RAISE part-way (a filter longer than the signal, both centrings); after every call a deep snapshot of every shared object is compared with the one taken before (arrays "
         "bytewise and their writeable flag, dicts recursively, tables with DataFrame.equals), and every call is repeated at the end of the sequence and must return an "
         "identical result; distinct = distinct call sequences; non-trivial = the sequence contains at least two calls sharing an option dictionary or a table")
 ASSUMPTIONS = ["deep snapshots use pickle round-trips of the argument objects; object identity of nested containers is not part of the statement",
@@ -20,7 +20,8 @@ def regen_slots():
     return slots.regenerate()
 
 OPS = ['cf_cycles', 'cf_amp', 'cf_cycles_trough', 'cf_amp_trough', 'shape', 'shape_trough', 'cyclepoints', 'burstfeat_cycles', 'burstfeat_amp', 'ampfrac', 'ampcons', 'percons', 'mono',
-       'extrema', 'zerox', 'cf2d_dict', 'cf2d_list', 'cf2d_alias', 'cf2d_none_axis', 'cf3d', 'edges', 'limit', 'limit_all', 'epoch', 'drop', 'plot_summary', 'plot_cyclepoints', 'plot_param']
+       'extrema', 'zerox', 'cf2d_dict', 'cf2d_list', 'cf2d_alias', 'cf2d_none_axis', 'cf3d', 'edges', 'limit', 'limit_all', 'epoch', 'drop', 'plot_summary', 'plot_cyclepoints', 'plot_param',
+       'cf2d_amp_list', 'cf_trough_raises', 'shape_trough_raises', 'cf_amp_raises']
 
 class World:
     """the shared argument objects of one session"""
@@ -36,11 +37,14 @@ class World:
         self.fek = {'filter_kwargs': {'n_cycles': 4}, 'boundary': 5}
         self.opts = {'center_extrema': 'trough', 'burst_method': 'cycles', 'threshold_kwargs': self.th_c, 'find_extrema_kwargs': self.fek}
         self.opt_list = [{'threshold_kwargs': self.th_c}, {'center_extrema': 'trough', 'threshold_kwargs': {'min_n_cycles': 1}}]
+        self.bk_min6 = {'min_n_cycles': 6}
+        self.opt_list_amp = [{'burst_method': 'amp', 'burst_kwargs': self.bk_min6, 'threshold_kwargs': self.th_a},
+                             {'burst_method': 'amp', 'burst_kwargs': self.bk_min6, 'threshold_kwargs': self.th_a}]
         self.sigs2 = np.array([self.sig[:500], self.sig[500:]])
         self.sigs3 = np.array([[self.sig[:500], self.sig[500:]]])
         self.df = implutil.quiet(compute_features, self.sig.copy(), self.fs, self.fr, threshold_kwargs=dict(self.th_c))
         self.df_t = implutil.quiet(compute_features, self.sig.copy(), self.fs, self.fr, center_extrema='trough', threshold_kwargs=dict(self.th_c))
-        self.shared = ['sig', 'th_c', 'th_a', 'bk', 'bk_min', 'fek', 'opts', 'opt_list', 'sigs2', 'sigs3', 'df', 'df_t']
+        self.shared = ['sig', 'th_c', 'th_a', 'bk', 'bk_min', 'fek', 'opts', 'opt_list', 'sigs2', 'sigs3', 'df', 'df_t', 'bk_min6', 'opt_list_amp']
     def snapshot(self):
         out = {}
         for k in self.shared:
@@ -92,6 +96,10 @@ def _call(w, op):
         if op == 'cf2d_list': return q(compute_features_2d, w.sigs2, w.fs, w.fr, compute_features_kwargs=w.opt_list, axis=0, n_jobs=2)
         if op == 'cf2d_alias': return q(compute_features_2d, w.sigs2, w.fs, w.fr, compute_features_kwargs=[w.opts] * 2, axis=None, n_jobs=1)
         if op == 'cf2d_none_axis': return q(compute_features_2d, w.sigs2, w.fs, w.fr, compute_features_kwargs=w.opt_list, axis=None, n_jobs=1)
+        if op == 'cf2d_amp_list': return q(compute_features_2d, w.sigs2, w.fs, w.fr, compute_features_kwargs=w.opt_list_amp, axis=None, n_jobs=1)
+        if op == 'cf_trough_raises': return q(compute_features, w.sig[:100], w.fs, w.fr, center_extrema='trough', threshold_kwargs=w.th_c)      # a view of the shared array, too short for the filter
+        if op == 'shape_trough_raises': return q(compute_shape_features, w.sig, w.fs, w.fr, center_extrema='trough', find_extrema_kwargs=w.fek, n_cycles=100)   # the band-amplitude filter is longer than the signal
+        if op == 'cf_amp_raises': return q(compute_features, w.sig[:20], w.fs, w.fr, center_extrema='trough', burst_method='amp', burst_kwargs=w.bk_min6, threshold_kwargs=w.th_a)
         if op == 'cf3d': return q(compute_features_3d, w.sigs3, w.fs, w.fr, compute_features_kwargs=w.opts, axis=(0, 1), n_jobs=1)
         if op == 'edges': return q(recompute_edges, w.df, w.th_c)
         if op == 'limit': return q(limit_df, w.df_t, w.fs, start=0.5, stop=3.0)
@@ -153,6 +161,8 @@ def evaluate(ctx, cases):
                 r2 = _call(w, op)
                 if not _same(results[i], r2):
                     ok = False; info['judge'] = 'repeating call %d (%s) after the rest of the sequence gives a different result' % (i, op); break
+        for op, r in zip(c['ops'], results):
+            if op.endswith('_raises') and not (isinstance(r, str) and r.startswith('raised')): ctx.hist('raised', op + ' did NOT raise')
         if ok and any(isinstance(r, str) and r.startswith('raised') for r in results):
             info['raised'] = [r for r in results if isinstance(r, str) and r.startswith('raised')][:3]
             ctx.hist('raised', info['raised'][0])
